@@ -118,12 +118,14 @@ func (n *ManyToOneNode) forward(index int) port.Listener {
 				if errWriter == nil {
 					errWriter = n.errPort.Open(proc)
 				}
+				errPck = derive(errPck, inPcks...)
 				n.tracer.Link(inPck, errPck)
 				n.tracer.Write(errWriter, errPck)
 			} else if outPck != nil {
 				if outWriter == nil {
 					outWriter = n.outPort.Open(proc)
 				}
+				outPck = derive(outPck, inPcks...)
 				n.tracer.Link(inPck, outPck)
 				n.tracer.Write(outWriter, outPck)
 			} else {
